@@ -32,28 +32,62 @@ def ret_write(b, S, ev):
     return None
 
 
+LIT = re.compile(r"^(push|push_str)\((\'(?:[^\'\\]|\\.)+\'|\"(?:[^\"\\]|\\.)*\")\)$")
+
+
+def _lit_text(eff):
+    m = LIT.match(eff)
+    if not m:
+        return None
+    body = m.group(2)[1:-1]
+    return body
+
+
 def table(prog):
     fids = [f for f, b in prog.bodies.items() if b.file == "a2lfile/src/writer.rs" and not f.startswith("writer::test")]
     A = sym.Analyzer(prog, opaque=[r"writer::.*"])
-    t = diag.table_for(prog, A, fids, effect)
-    # returned Ordering constants of the comparator (and of closures in writer.rs)
-    for fid in fids:
+    t = {}
+    for fid in sorted(fids):
         b = prog.bodies[fid]
-        if "Ordering" not in (b.locals[0]["ty"] if b.locals else ""):
-            continue
         S = A.summary(fid)
-        rows = t.setdefault(mir.strip_generics(fid), [])
-        for bi, blk in enumerate(b.blocks):
-            if blk["cleanup"]:
+        order = {bi: k for k, bi in enumerate(b.rpo())}
+        evs = []
+        for ev in S.events:
+            if ev[0] != "call" or ev[3] != fid:
                 continue
-            for s in blk["s"]:
-                if s["k"] == "assign" and s["p"]["l"] == 0 and not s["p"]["p"]:
-                    rv = s["rv"]
-                    val = rv["a"]["k"] if rv["r"] == "use" and "k" in rv["a"] else (rv.get("v") if rv["r"] == "agg" else None)
-                    if val is None and rv["r"] == "use":
-                        continue
-                    rows.append(["return %s" % val, sorted(guards.guard_set(b, S, bi))])
-        rows.sort(key=lambda r: (r[0], r[1]))
+            eff = effect(b, S, ev)
+            if eff is None:
+                continue
+            evs.append((order.get(ev[6], 1 << 30), eff, tuple(sorted(guards.guard_set(b, S, ev[6])))))
+        evs.sort(key=lambda x: x[0])
+        rows = []
+        # consecutive appends of literal text under the same conditions are one piece of output: push('\\'); push('n') == push_str("\\n")
+        k = 0
+        while k < len(evs):
+            _, eff, gs = evs[k]
+            txt = _lit_text(eff)
+            if txt is None:
+                rows.append([eff, list(gs)])
+                k += 1
+                continue
+            j = k + 1
+            while j < len(evs) and evs[j][2] == gs and _lit_text(evs[j][1]) is not None:
+                txt += _lit_text(evs[j][1])
+                j += 1
+            rows.append(["append \"%s\"" % txt, list(gs)])
+            k = j
+        if rows:
+            key = re.sub(r"\{closure#\d+\}", "{closure}", mir.strip_generics(fid))
+            t.setdefault(key, []).extend(rows)
+    for fid in fids:
+        rows = diag.ordering_rows(prog, A, fid)
+        if rows:
+            key = re.sub(r"\{closure#\d+\}", "{closure}", mir.strip_generics(fid))
+            have = t.setdefault(key, [])
+            # the comparator's delegations (cmp calls) are already there as ORDER effects: add the returned constants only
+            have.extend(r for r in rows if r[0].startswith("return "))
+    for k in t:
+        t[k].sort(key=lambda r: (r[0], r[1]))
     return t
 
 
